@@ -81,7 +81,7 @@ def _get_laplace_matrix(bcs: BoundariesList) -> tuple[NumericArray, NumericArray
                 matrix[i, k] += v * factor_h[i]
 
         else:
-            matrix[i, i + 1] = factor_h[i]
+            matrix[i, i + 1] += factor_h[i]
 
     return matrix, vector  # type: ignore
 
